@@ -23,7 +23,7 @@ def build():
                 ("T-STR", r"name\.to_lowercase\(\)", "crate::vstr::str_to_lowercase(name)"),
                 ("T-STR", r"name\.is_ascii\(\)", "crate::vstr::str_is_ascii(name)"),
                 ("T-STR", r"punycode::encode\(&raw_name\)", "crate::vstr::punycode_encode(&raw_name)"),
-                ("T-FMT", r"format!\(\"xn--\{idna_name\}\"\)", 'crate::vstr::cat2("xn--", &idna_name)'),
+                ("T-FMT", r"format!\(\"xn--\{(?P<v>\w+)\}\"\)", lambda m: f'crate::vstr::cat2("xn--", &{m.group("v")})'),
                 ("T-ITER", r"idna_parts\.join\(\"\.\"\)", "crate::vstr::join_strings(&idna_parts, '.')")],
         at=[("before", "parts.iter()", 1, "it:"),
             ("before_tail", None, 1, """
